@@ -215,6 +215,20 @@ TrAgree ==
                      <<"C03.K", Has(e.so, "server") => e.sk = obj[e.so].K>> >>, {"Agree"})
     /\ UNCHANGED <<seen, acc>>
 
+\* n refused reconnect attempts recorded as one event (see the harness): the server is still a server, its challenge is
+\* the recorded one, and the next legitimate attempt is judged against it
+TrBulkReject ==
+    /\ IsEv("BulkReject")
+    /\ LET e == E IN
+       /\ Has(e.o, "server")
+       /\ obj' = [obj EXCEPT ![e.o].chal = e.chalAfter]
+       /\ out' = [kind |-> "ok"]
+       /\ seen' = seen \cup {e.chalAfter}
+       /\ DoneK(<< <<"C14.total", e.res.kind # "panic">>,
+                   <<"C05.bulkRefused", e.res.kind # "panic" => e.rejected = e.n>>,
+                   <<"C05.refreshed", e.chalAfter \notin seen>> >>, {"BulkReject"}, e.res.kind = "panic")
+    /\ UNCHANGED acc
+
 TrClone ==
     /\ IsEv("Clone")
     /\ CloneObj(E.o, E.o2)
@@ -279,7 +293,7 @@ Next ==
     \/ TrReset \/ SkipBad(tvars)
     \/ TrPubKeySweep \/ TrRegister \/ TrImport \/ TrExport \/ TrIntoProof \/ TrPubKey \/ TrClientNew
     \/ TrIntoServer \/ TrVerifyServerProof \/ TrSessionKey \/ TrAgree \/ TrClone \/ TrDrop
-    \/ TrReconnectValues \/ TrVerifyReconnect \/ TrInterleave
+    \/ TrReconnectValues \/ TrVerifyReconnect \/ TrBulkReject \/ TrInterleave
 
 Spec == Init /\ [][Next]_vars
 
